@@ -53,6 +53,15 @@ class World:
         self.seed = seed
         self.log: list[str] = []
 
+    def fault(self, name: str, r: int) -> BaseException:
+        """the exception a scripted fault raises.  The script decides WHETHER an interaction fails; in every third
+        environment the fault is one of the EXC_KINDS (unprintable, chained to an unprintable cause, odd class name, ...)
+        instead of a plain TracerError - at every point an exception can come from: an operator, a comparison, a truth
+        test, an allow-listed callable, a tool body.  To the engine (and the model) an exception is an exception."""
+        if self.seed % 3 == 0:
+            return make_exception(EXC_KINDS[(r // 8) % len(EXC_KINDS)])
+        return TracerError(name)
+
 
 class Tr:
     """A tracer value: opaque handle `n`; every protocol method logs and answers by the script."""
@@ -72,7 +81,7 @@ class Tr:
         r = enc_vals(mix(w.seed, hash_str(name)), args)
         w.log.append("pr:" + name + ":" + ";".join(show(a) for a in args))
         if r % 8 == 0:
-            raise TracerError(name)
+            raise w.fault(name, r)
         if name in CMP_PRIMS:
             return (r // 8) % 2 == 1
         return Tr(r, w)
@@ -82,7 +91,7 @@ class Tr:
         r = mix(mix(w.seed, 77), self.n)
         w.log.append(f"tr:{self.n}")
         if r % 16 == 0:
-            raise TracerError("bool")
+            raise w.fault("bool", r // 2)
         return (r // 16) % 2 == 1
 
     def __call__(self, *args, **kwargs):
@@ -90,7 +99,7 @@ class Tr:
         r = hash_kws(mix(enc_vals(mix(mix(w.seed, 200), enc_val(self)), list(args)), 99), kwargs)
         w.log.append("ap:" + show(self) + ":" + ";".join(show(a) for a in args) + ":" + show_kws(kwargs))
         if r % 8 == 0:
-            raise TracerError("call")
+            raise w.fault("call", r)
         return Tr(r, w)
 
 
@@ -326,7 +335,16 @@ def tool_line(name: str, caps=(), ver: int = 0, exc: str | None = None, route: s
 EXC_KINDS = ["nodoc_empty", "emptydoc_empty", "blankdoc_empty", "doc_empty", "nodoc_msg", "nonstr_msg", "none_msg",
              "multi_args", "memoryerror_bare", "keyerror_bare", "keyerror_msg", "stopiteration", "oserror_bare",
              "assertion_bare", "doc_nonstr", "surrogate_msg", "zerodiv", "recursion", "unicode_error", "subclass_chain",
-             "str_raises", "str_nonstr", "repr_raises"]
+             "str_raises", "str_nonstr", "repr_raises",
+             # round 7: everything ELSE about the exception object a handler may touch - the explicit / implicit chain
+             # (`raise X from err`, an exception raised while another was handled), the arguments, notes, members of a
+             # group, the class name, attribute access, the text object `__str__` hands back
+             "cause_printable", "cause_str_raises", "cause_repr_raises", "cause_str_nonstr", "cause_of_cause_str_raises",
+             "cause_is_self", "context_str_raises", "context_suppressed", "args_str_raises", "args_repr_raises",
+             "notes_unprintable", "notes_nonlist", "group_unprintable", "name_empty", "name_long", "getattr_raises",
+             "eq_raises", "bool_raises", "hash_raises", "huge_msg", "traceback_none", "str_subclass_format_raises",
+             "meta_name_raises", "cause_meta_name_raises", "oserror_filename_unprintable", "keyerror_unprintable_key",
+             "syntaxerror_odd_fields", "unicode_error_odd_fields", "stopiteration_value"]
 
 
 def make_exception(kind: str) -> BaseException:
@@ -370,7 +388,139 @@ def make_exception(kind: str) -> BaseException:
         "doc_nonstr": lambda: DocNonStr(), "surrogate_msg": lambda: NoDoc("\ud800"), "zerodiv": lambda: ZeroDivisionError(),
         "recursion": lambda: RecursionError(), "unicode_error": lambda: UnicodeDecodeError("utf-8", b"\xff", 0, 1, "bad"),
         "subclass_chain": lambda: Deep(),
-    }[kind]()
+    }.get(kind, lambda: _odd_exception(kind))()
+
+
+def _odd_exception(kind: str) -> BaseException:
+    """round-7 kinds: the chain, arguments, notes, class name ... of the exception are hostile / unusual, the exception
+    itself is an ordinary `Exception` with a printable message (unless the kind says otherwise)"""
+    class Outer(Exception):
+        pass
+
+    class StrRaises(Exception):
+        def __str__(self):
+            raise RuntimeError("connection already closed")
+
+    class ReprRaises(Exception):
+        def __repr__(self):
+            raise RuntimeError("no repr")
+
+        __str__ = __repr__
+
+    class StrNonStr(Exception):
+        def __str__(self):
+            return 42
+
+    class Hostile:
+        def __str__(self):
+            raise RuntimeError("no text")
+
+        __repr__ = __str__
+
+    class _MetaName(type):
+        @property
+        def __name__(cls):
+            raise ZeroDivisionError("no name")
+
+    class MetaName(Exception, metaclass=_MetaName):
+        pass
+
+    class _Text(str):
+        def __format__(self, spec):
+            raise RuntimeError("no format")
+
+    class StrSubclass(Exception):
+        def __str__(self):
+            return _Text("x")
+
+    def chained(e, cause=None, context=None):
+        if cause is not None:
+            e.__cause__ = cause            # what `raise e from cause` does
+        if context is not None:
+            e.__context__ = context        # what raising inside an `except` block does
+        return e
+    if kind == "cause_printable":
+        return chained(Outer("lookup failed"), KeyError("k"))
+    if kind == "cause_str_raises":
+        return chained(LookupError("lookup failed"), StrRaises("k"))
+    if kind == "cause_repr_raises":
+        return chained(Outer("lookup failed"), ReprRaises("k"))
+    if kind == "cause_str_nonstr":
+        return chained(Outer("lookup failed"), StrNonStr())
+    if kind == "cause_of_cause_str_raises":
+        return chained(Outer("a"), chained(Outer("b"), StrRaises()))
+    if kind == "cause_is_self":
+        e = Outer("loop")
+        return chained(e, e)
+    if kind == "context_str_raises":
+        return chained(Outer("while handling"), None, StrRaises())
+    if kind == "context_suppressed":
+        e = chained(Outer("from None"), None, StrRaises())
+        e.__suppress_context__ = True
+        return e
+    if kind == "args_str_raises":
+        return Outer(Hostile())
+    if kind == "args_repr_raises":
+        return Outer(Hostile(), 1)
+    if kind == "notes_unprintable":
+        e = Outer("noted")
+        e.__notes__ = [Hostile(), "x"]
+        return e
+    if kind == "notes_nonlist":
+        e = Outer("noted")
+        e.__notes__ = 42
+        return e
+    if kind == "group_unprintable":
+        return ExceptionGroup("several", [StrRaises(), chained(Outer("x"), StrRaises())])
+    if kind == "name_empty":
+        return type("", (Exception,), {})("m")
+    if kind == "name_long":
+        return type("N" * 70000, (Exception,), {"__doc__": None})("m")
+    if kind == "getattr_raises":
+        class GetAttr(Exception):
+            def __getattr__(self, n):
+                raise RuntimeError(n)
+        return GetAttr("m")
+    if kind == "eq_raises":
+        class EqRaises(Exception):
+            def __eq__(self, o):
+                raise RuntimeError("eq")
+
+            __hash__ = Exception.__hash__
+        return EqRaises("m")
+    if kind == "bool_raises":
+        class BoolRaises(Exception):
+            def __bool__(self):
+                raise RuntimeError("bool")
+        return chained(Outer("m"), BoolRaises())
+    if kind == "hash_raises":
+        class HashRaises(Exception):
+            def __hash__(self):
+                raise RuntimeError("hash")
+        return chained(HashRaises("m"), HashRaises("c"))
+    if kind == "huge_msg":
+        return Outer("m" * 3000000)
+    if kind == "traceback_none":
+        return Outer("m").with_traceback(None)
+    if kind == "str_subclass_format_raises":
+        return StrSubclass()
+    if kind == "meta_name_raises":
+        return MetaName("m")
+    if kind == "cause_meta_name_raises":
+        return chained(Outer("m"), MetaName("c"))
+    if kind == "oserror_filename_unprintable":
+        return OSError(2, "No such file", Hostile())
+    if kind == "keyerror_unprintable_key":
+        return KeyError(Hostile())
+    if kind == "syntaxerror_odd_fields":
+        return SyntaxError("bad", (Hostile(), "x", None, 42))
+    if kind == "unicode_error_odd_fields":
+        e = UnicodeDecodeError("utf-8", b"\xff", 0, 1, "bad")
+        e.start, e.end = 2 ** 62, -5
+        return e
+    if kind == "stopiteration_value":
+        return StopIteration(Hostile())
+    raise KeyError(kind)
 
 
 def pyevl_line(src: str) -> str:
@@ -468,7 +618,7 @@ class _State:
             if exc:
                 raise make_exception(exc)
             if r % 8 == 0:
-                raise TracerError("tool")
+                raise w.fault("tool", r)
             return Tr(r, w)
         return fn
 
@@ -1510,6 +1660,106 @@ def big_text(rng, max_len: int = 10000, sizes=None):
     kind, b, z = rng.choice(big_forms(n, max_len))
     src = rng.choice(BIG_WRAPS[:3] + BIG_WRAPS).format(b=b, z=z)
     return (kind, src) if len(src) <= max_len else (kind, b)
+
+
+# ---- the CONTENTS of string literals (C02: "never ... rewrites literal contents") and spellings Python refuses -------
+# A text preprocessor in front of the parser (translate / replace / strip / lower / unicodedata.normalize / re.sub on the
+# whole expression: "accept what LLM replies and word processors produce") leaves every ASCII test alone and rewrites
+# the inside of string literals.  Pairs (fragment, what a preprocessor would make of it):
+LITERAL_PAIRS = [
+    # typographic operators, dashes, quotes, fullwidth forms
+    ("×", "*"), ("÷", "/"), ("−", "-"), ("≤", "<="), ("≥", ">="), ("≠", "!="),
+    ("–", "-"), ("—", "-"), ("‐", "-"), ("‑", "-"), ("·", "*"), ("∙", "*"), ("⋅", "*"),
+    ("∗", "*"), ("⁄", "/"), ("∕", "/"), ("：", ":"), ("，", ","), ("（", "("), ("）", ")"),
+    ("［", "["), ("＝", "="), ("＋", "+"), ("＜", "<"), ("＞", ">"), ("“", '"'), ("”", '"'),
+    ("‘", "`"), ("’", "`"), ("«", '"'), ("…", "..."), ("∶", ":"), ("±", "+-"), ("≈", "=="),
+    ("∞", "inf"), ("π", "pi"), ("√", "sqrt"), ("²", "**2"), ("³", "**3"), ("½", "1/2"),
+    ("‰", "/1000"), ("°", ""), ("′", "`"), ("¬", "not "), ("∧", " and "), ("∨", " or "),
+    # spaces and invisible characters
+    (" ", " "), (" ", " "), (" ", " "), ("　", " "), (" ", " "), ("​", ""), ("‌", ""),
+    ("‍", ""), ("⁠", ""), ("﻿", ""), ("­", ""), ("‎", ""), (" ", " "), ("\u0085", " "),
+    ("\t", " "), ("  ", " "), (" x", "x"), ("x ", "x"), ("\x0b", " "), ("\x0c", " "), ("\x1f", " "), ("\x7f", ""),
+    # ASCII spellings a "friendly" reader rewrites
+    ("^", "**"), (" x ", " * "), (" mod ", " % "), ("&&", "and"), ("||", "or"), ("AND", "and"), ("Not", "not"),
+    ("True", "true"), ("TRUE", "True"), ("None", "null"), ("null", "None"), ("NaN", "nan"), ("=", "=="), ("<>", "!="),
+    ("=<", "<="), ("50%", "50/100"), ("1,000", "1000"), ("$5", "5"), ("#1", ""), (";", ""), ("?", ""), ("2.", "2"),
+    ("0x10", "16"), ("1e3", "1000.0"), ("1_000", "1000"), ("007", "7"), ("+1", "1"), ("--1", "1"), ("(1)", "1"),
+    # canonically / compatibly equivalent, case variants
+    ("é", "é"), ("é", "é"), ("ﬁ", "fi"), ("Å", "Å"), ("K", "K"),
+    ("Ω", "Ω"), ("ｘ", "x"), ("１", "1"), ("٣", "3"), ("İ", "i̇"), ("ß", "ss"),
+    ("ς", "σ"), ("ẞ", "SS"), ("ǅ", "ǆ"), ("É", "é"), ("A", "a"), ("ı", "i"),
+    ("㎒", "MHz"), ("①", "1"), ("\U0001d465", "x"), ("\U0001f600", ":)"), ("́", ""), ("€", "EUR"),
+]
+
+
+def lit_quote(s: str) -> str | None:
+    """`s` as ONE string literal with the characters written out (no escapes), or None when that cannot be done"""
+    if "\\" in s or "\n" in s or "\r" in s or "\x00" in s:
+        return None
+    if "'" not in s:
+        return "'" + s + "'"
+    if '"' not in s:
+        return '"' + s + '"'
+    return None
+
+
+LIT_WRAPS = ["{F}", "len({F})", "{F} == {G}", "{F} != {G}", "min({F}, '~')", "({F}, 1)", "[{F}, {G}]", "{F} * 2",
+             "1 if {F} < {G} else 2", "{F} if 1 else 0", "{F} or 0", "max([{F}, {G}])", "{F} + {G}", "not ({F} == {G})",
+             "{F} <= {G} and 1 < 2", "len({F}) + len({G})", "sum([len({F})], 1)", "max({F}, {G}, key=len)"]
+
+
+def literal_texts(f: str, g: str, j: int = 0) -> list[str]:
+    """expressions of the allowed subset whose string literals contain the fragment `f` (alone and inside a word), with
+    the look-alike `g` as the other operand"""
+    out = []
+    G = lit_quote(g) or "''"
+    for k, content in enumerate((f, "3 " + f + " 4", "a" + f + "b")):
+        F = lit_quote(content)
+        if F is None:
+            continue
+        G2 = lit_quote(content.replace(f, g)) or G
+        for w in (LIT_WRAPS[:4] if k == 0 else []) + [LIT_WRAPS[(j + 5 * k + i) % len(LIT_WRAPS)] for i in range(2)]:
+            out.append(w.format(F=F, G=G2 if k else G))
+    return list(dict.fromkeys(out))
+
+
+def unicode_chunk_literals(size: int = 8000, quick: bool = False):
+    """every code point of Unicode (surrogates and the four characters a one-line literal cannot contain excepted) written
+    out inside string literals of `size` characters: [(first code point, literal text)].  quick: the BMP, the first
+    quarter of plane 1 and one chunk from each further assigned plane."""
+    skip = {0, 0x0a, 0x0d, 0x27, 0x5c}
+    out, cur, first = [], [], None
+    ranges = [(1, 0xD800), (0xE000, 0x110000)]
+    if quick:
+        ranges = [(1, 0xD800), (0xE000, 0x14000), (0x1F000, 0x1FB00), (0x20000, 0x20000 + size), (0x2F800, 0x2FA20),
+                  (0xE0000, 0xE0200), (0xF0000, 0xF0000 + 64), (0x10FF00, 0x110000)]
+    for lo, hi in ranges:
+        for cp in range(lo, hi):
+            if cp in skip:
+                continue
+            if first is None:
+                first = cp
+            cur.append(chr(cp))
+            if len(cur) >= size:
+                out.append((first, "'" + "".join(cur) + "'"))
+                cur, first = [], None
+    if cur:
+        out.append((first, "'" + "".join(cur) + "'"))
+    return out
+
+
+# spellings Python refuses (or reads in its own way): whenever Python's evaluation raises, the engine reports failure
+SPELLINGS = ["2 × 3", "7 ÷ 2", "5 − 3", "1 ≤ 2", "2 ≥ 1", "1 ≠ 2", "2 + 2", "2 * 3",
+             "２ + ２", "2 ＋ 2", "2 ^ 3", "2³", "½", "1,5 + 1", "1 000", "3 x 4", "3 mod 2", "1 <> 2",
+             "1 = 1", "1 && 2", "1 || 2", "!1", "50%", "$5", "(2)(3)", "2 3", "1e", "0x", "1__0", "01", "1.2.3", "++1", "--1",
+             "1 +* 2", "TRUE", "not", "sqrt 4", "sqrt(4", "|-3|", "3!", "√4", "π", "∞", "π * 2", "2 · 3",
+             "1 – 1", "“1”", "‘a’", "abs（-1）", "max(1， 2)", "2 ** ²", "1​+ 1",
+             "﻿1 + 1", "1 + 1‎", "1 +　1", "ｍａｘ(1, 2)", "ℱ(1)", "µ", "max(1, 2)",
+             "2 ⋅ 3", "6 ∕ 3", "1 ∶ 2", "4 ⁄ 2", "1 ≈ 1", "¬1", "1 ∧ 0", "1 ∨ 0", "3 ∗ 3"]
+
+# tracer world: string constants with unusual contents in positions where no real operator touches them
+STRCONST_TRACER = ["({c} if t0 else t1)", "[{c}, t0]", "f0({c}, k={d})", "(t1, {c})", "(t0 or {c})", "f1(k={c})",
+                   "(t0 and {c})", "{c}", "({c} if t0 else {d})"]
 
 
 _GEN_NS = None
